@@ -229,7 +229,7 @@ impl Check for C17 {
         "exploration"
     }
     fn rule_text(&self) -> String {
-        "0-10 connections (status, login, transfer; some dawdling before Login Acknowledged / Client Information, some going silent) arriving on a 500 ms grid within 10 s, routing latency 0-17 s, timeout 20-120 s, and a stop request placed exactly at a connect instant (half of the runs; issued before or after the connects of that instant), between grid points, or at a random millisecond. Every scenario is run with and without the stop. Non-trivial = at least one connection was in flight or queued at the stop; distinct = distinct event-order trace hash.".into()
+        "0-10 connections (status, login, transfer; some dawdling before Login Acknowledged / Client Information, some going silent) arriving on a 500 ms grid within 10 s, routing latency 0-17 s, timeout 20-120 s, and a stop request placed exactly at a connect instant (half of the runs; issued before or after the connects of that instant), between grid points, or at a random millisecond. At the stop's own instant the driver either calls the stop at once, lets a task queued behind the listener call it (accepted, connection task not yet polled), or lets everything ready run 1-2 rounds first. One run in forty adds a crowd of 70-260 short connections around one slow login. A third of the runs go through passage::start and the simulated interrupt, a third of those with Agones discovery. Every scenario is run with and without the stop. Non-trivial = at least one connection was in flight or queued at the stop; distinct = distinct event-order trace hash.".into()
     }
     fn assumptions(&self) -> Vec<String> {
         vec![
@@ -238,7 +238,7 @@ impl Check for C17 {
         ]
     }
     fn components(&self) -> Value {
-        json!({"real": ["Listener::listen (accept/stop select, TaskTracker close + wait)", "Connection", "tokio CancellationToken"], "stub": ["network (hook H1)", "clients", "services", "stop signal source"]})
+        json!({"real": ["Listener::listen (accept/stop select, TaskTracker close + wait)", "Connection", "tokio CancellationToken", "passage::start + simulated interrupt (hook H6) in a third of the runs", "AgonesDiscoveryAdapter + kube watcher against the simulated API server (hook H4) in a third of those"], "stub": ["network (hook H1)", "clients", "services (listener mode) / built-in adapters (application mode)", "Kubernetes API server (simulated)", "stop signal source"]})
     }
     fn count(&self, tier: Tier) -> u64 {
         match tier {
